@@ -93,7 +93,7 @@ func cmdCheck(args []string) {
 	}
 	vdir := verifDir()
 	start := time.Now()
-	budget := 10
+	budget := 15
 	if *tier == "thorough" {
 		budget = 60
 	}
